@@ -1,2 +1,3 @@
-/- C13 — PIL grammar round trips: theorems are in Props/C13Pil.lean. -/
+/- C13 — PIL grammar round trips: theorems are in Props/C13Pil.lean and Props/C13Kernel.lean. -/
 import DsdVerif.Props.C13Pil
+import DsdVerif.Props.C13Kernel
